@@ -30,9 +30,14 @@ static uint64_t hdr_fp(const refhdr::Gzip &g) {
 }
 
 // ---------------------------------------------------------------------------------------------------- writers
+// the header CRC16 is computed by the dispatched crc32_gzip_refl: every header job runs under a simulated processor drawn from the header's own fields
+static const char *level_for(const refhdr::Gzip &g) { return cpu::LEVEL_NAMES[mix64(((uint64_t) g.mtime << 16) ^ ((uint64_t) g.xfl << 8) ^ g.os) % cpu::N_LEVELS]; }
 static void body_write_gzip(Tape &t, Ctx &c) {
 	refhdr::Gzip g;
 	gen_hdr(t, g, true);
+	const char *cpu_lv = level_for(g);
+	kern::use_level(cpu_lv);
+	c.label(std::string("cpu=") + cpu_lv);
 	std::vector<uint8_t> want = refhdr::write_gzip(g);
 	size_t need = want.size();
 	size_t avail;
@@ -164,6 +169,9 @@ struct ReadCfg { int xbuf, nbuf, cbuf; }; // 0 NULL, 1 exact, 2 undersized (grow
 static void body_read_gzip(Tape &t, Ctx &c) {
 	refhdr::Gzip g;
 	gen_hdr(t, g, t.range(0, 3) == 0);
+	const char *cpu_lv = level_for(g);
+	kern::use_level(cpu_lv);
+	c.label(std::string("cpu=") + cpu_lv);
 	bool from_zlib = t.range(0, 3) == 0 && g.extra.size() < 60000;
 	bool bad_hcrc = g.hcrc && t.range(0, 5) == 0;
 	std::vector<uint8_t> hdr;
